@@ -296,10 +296,12 @@ int main(int argc, char** argv) {
   // =================================================================== (c) SphericalHarmonic1 / SphericalHarmonic2
   {
     const int N = T ? 4 : 3;
-    const double TAUS[3] = {0, 1, -0.5};
+    const double TAUS[4] = {0, 1, -0.5, 0.3};
+    // (tau1, tau2) pairs for SphericalHarmonic2: {0,1,-0.5}^2 and the generic unequal pair (0.3, 0.7)
+    const double TAU2[10][2] = {{0, 0}, {0, 1}, {0, -0.5}, {1, 0}, {1, 1}, {1, -0.5}, {-0.5, 0}, {-0.5, 1}, {-0.5, -0.5}, {0.3, 0.7}};
     std::vector<Dir> d8;
     for (auto& d : dirs) if (std::string(d.name) == "pole+" || std::string(d.name) == "equator-lon131" || d.cls == 0 || std::string(d.name) == "nearpole-1e-10") d8.push_back(d);
-    ctx.bound("harm12", "main set: dense, layout " + fmti(N) + ", every truncation; secondary set(s): layouts N1 in {nmx1, nmx1+1}, every nmx1 <= nmx, mmx1 <= min(nmx1,mmx) and (-1,-1), every unit coefficient vector; tau in {0,1,-0.5} (SphericalHarmonic1), (tau1,tau2) in {0,1,-0.5}^2 with a dense first correction and unit second correction (SphericalHarmonic2); " + fmti((long long)d8.size()) + " directions x r/a in {0.5,1,2}; both norms; direct (value, gradient) and Circle");
+    ctx.bound("harm12", "main set: dense, layout " + fmti(N) + ", every truncation; secondary set(s): layouts N1 in {nmx1, nmx1+1}, every nmx1 <= nmx, mmx1 <= min(nmx1,mmx) and (-1,-1), every unit coefficient vector; tau in {0,1,-0.5} (SphericalHarmonic1), (tau1,tau2) in {0,1,-0.5}^2 + (0.3,0.7) with a dense first correction and unit second correction, C and S (SphericalHarmonic2), direct and Circle on every pair; " + fmti((long long)d8.size()) + " directions x r/a in {0.5,1,2}; both norms; direct (value, gradient) and Circle");
     Lay A(N); A.fill(4, 1);
     for (int which = 1; which <= 2; ++which) {
       ctx.sub(which == 1 ? "harm1" : "harm2");
@@ -322,10 +324,10 @@ int main(int argc, char** argv) {
                 double& slot = cs ? U.S[U.si(n, m)] : U.C[U.ci(n, m)];
                 slot = 1;
                 const bool inside = n <= nmx1 && m <= mmx1;
-                for (int i1 = 0; i1 < 3; ++i1) for (int i2 = 0; i2 < (which == 2 ? 3 : 1); ++i2) {
+                for (int ip = 0; ip < (which == 2 ? 10 : 3); ++ip) {
                   Ctx::Case cas(ctx);
-                  const double t1 = TAUS[i1], t2 = TAUS[i2];
-                  ctx.sig((uint64_t)((((n * 8 + m) * 2 + cs) * 2 + inside) * 16 + i1 * 4 + i2) * 8 + D.cls * 2 + norm);
+                  const double t1 = which == 2 ? TAU2[ip][0] : TAUS[ip], t2 = which == 2 ? TAU2[ip][1] : 0;
+                  ctx.sig((uint64_t)((((n * 8 + m) * 2 + cs) * 2 + inside) * 16 + ip) * 8 + D.cls * 2 + norm);
                   std::string key = pkey + " trunc=" + fmti(nmx) + "," + fmti(mmx) + " trunc1=" + fmti(nmx1) + "," + fmti(mmx1) + " N1=" + fmti(N1) + " unit=" + (cs ? "S" : "C") + "(" + fmti(n) + "," + fmti(m) + ") tau=" + fmt(t1) + (which == 2 ? "," + fmt(t2) : "");
                   mc::Fields F{{"norm", norm ? "SCHMIDT" : "FULL"}, {"n", fmti(n)}, {"m", fmti(m)}, {"cs", cs ? "S" : "C"}, {"inside", inside ? "1" : "0"}, {"ptclass", fmti(D.cls)}};
                   try {
@@ -357,10 +359,10 @@ int main(int argc, char** argv) {
                                                                    : SphericalHarmonic2(A.C, A.S, N, nmx, mmx, B.C, B.S, NB1, nmx1, mmx1, U.C, U.S, N1, nmx1, mmx1, a, norm);
                       H = wrap(h, t1, t2);
                       check_direct(ctx, pre, H, x, y, z, table_sum(tab, nmx, mmx, coef), key, F);
-                      if (i1 == i2 || cs == 0) {            // circles on the sub-lattice tau1 = tau2 or C-units (cost)
-                        sph::Sum cr[NL]; for (int il = 0; il < NL; ++il) cr[il] = table_sum(ctab[il], nmx, mmx, coef);
-                        check_circle(ctx, pre + ".circle", H, p, z, NL, cr, key, F, false);
-                      }
+                      // circles on the whole lattice: every (tau1, tau2) pair, C and S units (the circle path combines the
+                      // coefficient sets in its own loop, separately for the cosine and the sine coefficients)
+                      sph::Sum cr[NL]; for (int il = 0; il < NL; ++il) cr[il] = table_sum(ctab[il], nmx, mmx, coef);
+                      check_circle(ctx, pre + ".circle", H, p, z, NL, cr, key, F, false);
                     }
                   } catch (const std::exception& e) {
                     mc::Fields g = F; g.push_back({"kind", "exception"});
